@@ -51,3 +51,13 @@ let print_model (outs : string list) (verdict : string) : unit =
   print_string " ## ";
   print_string verdict;
   print_char '\n'
+
+(* Cases of the assembled-system stream (go/asmsys): the child process states the property's clause on
+   what it saw of the whole server; the expected observation is "ok". *)
+let asm_case (outs : string list) : unit =
+  let verdict = match outs with
+    | ["ok"] -> "ok"
+    | o :: _ when String.length o > 5 && String.sub o 0 5 = "fail:" -> o
+    | o :: _ -> "fail:" ^ o
+    | [] -> "fail:no-observation" in
+  print_model ["ok"] verdict
